@@ -13,8 +13,8 @@ What is proved is about the effect abstraction of `Proto/Effects.lean`:
 * `safe_calls_writesFresh` — the abstract calls of table entries not classified `sharedWrite`, given
                               disjoint fresh regions, satisfy the hypothesis; `table_safe_sequential` is
                               the resulting statement for the read-only method set;
-* `claimedSafe_spec`, `sharedWrite_only_vartime` — the write-set table: exactly the `edwards25519vartime`
-                              methods that call `normalize()` and kilic `Pair` are outside the claim;
+* `claimedSafe_spec`, `table_all_safe` — the write-set table: on the current tree every entry is inside
+                              the claim (the two former exceptions were the C20 findings);
 * `sharedWrite_races`      — such a method does race (the hypothesis is not vacuous and is needed).
 
 NOT proved (partial): that the table over-approximates the writes of the real methods (it is a reading
@@ -349,11 +349,10 @@ theorem claimedSafe_spec (x : Entry) : x ∈ claimedSafe ↔ x ∈ table ∧ x.c
   unfold claimedSafe
   simp [List.mem_filter]
 
-/-- The only entries that write shared memory: the `edwards25519vartime` methods that call
-    `normalize()`, and `Pair` of the kilic BLS12-381 suite. -/
-theorem sharedWrite_only_vartime : ∀ x ∈ table, x.cls = .sharedWrite →
-    (x.impl ∈ vartimeImpls ∧ x.method ∈ vartimeNormalising.map ("Point." ++ ·)) ∨
-    (x.impl = "pairing-kilic" ∧ x.method = "Pair") := by
+/-- On the current tree no method of the read-only set is classified `sharedWrite`: the whole table is
+    inside the claim. (Until /repo 65997e5 and 2887bba the `edwards25519vartime` methods calling
+    `normalize()` and kilic `Pair` were.) -/
+theorem table_all_safe : ∀ x ∈ table, x.cls ≠ .sharedWrite := by
   decide +kernel
 
 /-- The read-only method set of the table, run concurrently on shared operands under ANY schedule:
@@ -385,6 +384,6 @@ example : (run ((fun _ => 5), [start (abstractCall .sharedWrite [0] 10 0), start
 
 /-- The hypotheses of `table_safe_sequential` are satisfiable. -/
 example : ∀ l ∈ [0, 1, 2], l < 3 := by decide
-example : claimedSafe.length = 314 ∧ table.length = 323 := by decide +kernel
+example : claimedSafe.length = 323 ∧ table.length = 323 := by decide +kernel
 
 end Kyber.C20
